@@ -379,6 +379,8 @@ func fail(site, class, witness, desc string) {
 	fmt.Fprintf(out, "FAIL\t%s\t%s\t%s\t%s\n", site, class, witness, desc)
 }
 
+var repoDir = new(string)
+
 func search(seed uint64, n, exh int) {
 	rng := hx.NewRng(seed ^ 0xC08)
 	for i := 0; i < n; i++ {
@@ -455,6 +457,7 @@ func search(seed uint64, n, exh int) {
 	}
 	searchSamples(rng, n/2+1)
 	searchFragmented(rng, n/2+1)
+	searchRealFiles(rng, n/4+2, *repoDir)
 	fmt.Fprintf(out, "EVALS\t%d\n", evals)
 }
 
@@ -474,6 +477,7 @@ func main() {
 	seed := fs.Uint64("seed", 0, "seed")
 	n := fs.Int("n", 10, "number of files")
 	exh := fs.Int("exh", 12, "max payload length of exhaustively explored mdats")
+	repoDir = fs.String("repo", "/repo", "repository root (for testdata)")
 	_ = fs.Parse(os.Args[2:])
 	defer out.Flush()
 	switch os.Args[1] {
@@ -481,6 +485,8 @@ func main() {
 		corr(*seed, *n, *exh)
 	case "search":
 		search(*seed, *n, *exh)
+	case "hookcases":
+		hookCases(*seed, *n)
 	default:
 		fmt.Fprintln(os.Stderr, "unknown sub-command "+os.Args[1])
 		out.Flush()
